@@ -173,7 +173,7 @@ def cleanView : View → Bool
   | .suspense fb nonce vs => cleanStr fb && nonce.isNone && cleanViewL vs
   | .eb vs => cleanViewL vs
   | .resSuspend _ v => cleanView v
-  | .resRead _ v => cleanView v
+  | .resRead _ _ v => cleanView v
   | .localRead => true
   | .localAwait _ => true
 def cleanViewL : List View → Bool
@@ -186,77 +186,106 @@ theorem cleanOps_append (a b : List Op) : cleanOps (a ++ b) = (cleanOps a && cle
   | nil => simp [cleanOps]
   | cons o os ih => simp [cleanOps, ih, Bool.and_assoc]
 
-theorem compile_clean (ooo : Bool) : ∀ (n : Nat),
-    (∀ (c : Ctx) (v : View), viewSize v ≤ n → cleanView v = true → cleanOps (compile ooo c v) = true) ∧
-    (∀ (c : Ctx) (vs : List View), viewSizeL vs ≤ n → cleanViewL vs = true → cleanOps (compileL ooo c vs) = true) := by
+theorem cleanOps_iteTree (gs : List (FId × Bool)) (k : List FId → List Op) (hk : ∀ was, cleanOps (k was) = true) :
+    ∀ was, cleanOps (iteTree gs was k) = true := by
+  induction gs with
+  | nil => intro was; simpa [iteTree] using hk was
+  | cons g gs ih =>
+    intro was
+    obtain ⟨g, once⟩ := g
+    simp [iteTree, cleanOps, cleanOp, ih]
+
+theorem compileA_clean (ooo : Bool) : ∀ (n : Nat),
+    (∀ (was : List FId) (c : Ctx) (v : View), viewSize v ≤ n → cleanView v = true →
+      cleanOps (compileA ooo was c v) = true) ∧
+    (∀ (was : List FId) (c : Ctx) (vs : List View), viewSizeL vs ≤ n → cleanViewL vs = true →
+      cleanOps (compileAL ooo was c vs) = true) := by
   intro n
   induction n with
   | zero =>
     refine ⟨?_, ?_⟩
-    · intro c v h; cases v <;> simp [viewSize] at h
-    · intro c vs h _
+    · intro was c v h; cases v <;> simp [viewSize] at h
+    · intro was c vs h _
       cases vs with
-      | nil => simp [compileL, cleanOps]
+      | nil => simp [compileAL, cleanOps]
       | cons v vs => cases v <;> simp [viewSizeL, viewSize] at h
   | succ n ih =>
-    have hL : ∀ (c : Ctx) (vs : List View), viewSizeL vs ≤ n + 1 → cleanViewL vs = true →
-        (∀ (c : Ctx) (v : View), viewSize v ≤ n + 1 → cleanView v = true → cleanOps (compile ooo c v) = true) →
-        cleanOps (compileL ooo c vs) = true := by
-      intro c vs
+    have hL : ∀ (was : List FId) (c : Ctx) (vs : List View), viewSizeL vs ≤ n + 1 → cleanViewL vs = true →
+        (∀ (was : List FId) (c : Ctx) (v : View), viewSize v ≤ n + 1 → cleanView v = true →
+          cleanOps (compileA ooo was c v) = true) →
+        cleanOps (compileAL ooo was c vs) = true := by
+      intro was c vs
       induction vs with
-      | nil => intro _ _ _; simp [compileL, cleanOps]
+      | nil => intro _ _ _; simp [compileAL, cleanOps]
       | cons v vs ihv =>
         intro h hok hv
         simp only [viewSizeL] at h
         simp only [cleanViewL, Bool.and_eq_true] at hok
-        simp [compileL, cleanOps_append, hv c v (by omega) hok.1, ihv (by omega) hok.2 hv]
+        simp [compileAL, cleanOps_append, hv was c v (by omega) hok.1, ihv (by omega) hok.2 hv]
     have hbang : cleanStr ['<', '!', '>'] = true := by decide
-    have hV : ∀ (c : Ctx) (v : View), viewSize v ≤ n + 1 → cleanView v = true → cleanOps (compile ooo c v) = true := by
-      intro c v h hok
+    have hV : ∀ (was : List FId) (c : Ctx) (v : View), viewSize v ≤ n + 1 → cleanView v = true →
+        cleanOps (compileA ooo was c v) = true := by
+      intro was c v h hok
       cases v with
-      | raw s => cases c <;> simpa [compile, cleanOps, cleanOp, cleanView] using hok
+      | raw s => cases c <;> simpa [compileA, cleanOps, cleanOp, cleanView] using hok
       | seq vs =>
         simp only [viewSize] at h
-        have := ih.2 c vs (by omega) (by simpa [cleanView] using hok)
-        cases c <;> simpa [compile] using this
+        have := ih.2 was c vs (by omega) (by simpa [cleanView] using hok)
+        cases c <;> simpa [compileA] using this
       | suspend f v =>
         simp only [viewSize] at h
         have hv : cleanView v = true := by simpa [cleanView] using hok
         cases c with
         | top =>
-          have := ih.1 .top v (by omega) hv
-          cases ooo <;> simp [compile, cleanOps, cleanOp, this, hbang, cleanNonce]
-        | direct => simpa [compile] using ih.1 .direct v (by omega) hv
-        | nested => simpa [compile] using ih.1 .direct v (by omega) hv
+          have := ih.1 was .top v (by omega) hv
+          cases ooo <;> simp [compileA, cleanOps, cleanOp, this, hbang, cleanNonce]
+        | direct => simpa [compileA] using ih.1 was .nested v (by omega) hv
+        | nested => simpa [compileA] using ih.1 was .nested v (by omega) hv
       | suspense fb nonce vs =>
         simp only [viewSize] at h
         simp only [cleanView, Bool.and_eq_true] at hok
-        have := ih.2 .direct vs (by omega) hok.2
+        have := fun was' => ih.2 was' .direct vs (by omega) hok.2
         by_cases hl : localNowL vs = true
-        · cases c <;> simp [compile, hl, cleanOps, cleanOp, hok.1.1]
+        · cases c <;> simp [compileA, hl, cleanOps, cleanOp, hok.1.1]
         · have hl' : localNowL vs = false := by simpa using hl
           cases hw : localWaitL vs with
-          | some f => cases c <;> cases ooo <;> simp [compile, hl', hw, cleanOps, cleanOp, hok.1.1, cleanNonce, hok.1.2]
-          | none => cases c <;> cases ooo <;> simp [compile, hl', hw, cleanOps, cleanOp, this, hok.1.1, cleanNonce, hok.1.2]
+          | some f => cases c <;> cases ooo <;> simp [compileA, hl', hw, cleanOps, cleanOp, hok.1.1, cleanNonce, hok.1.2]
+          | none =>
+            cases c <;> cases ooo <;> simp only [compileA, hl', hw, Bool.false_eq_true, if_false, if_true] <;>
+              exact cleanOps_iteTree _ _ (fun was' => by simp [cleanOps, cleanOp, this was', hok.1.1, cleanNonce, hok.1.2]) _
       | eb vs =>
         simp only [viewSize] at h
-        have := ih.2 c vs (by omega) (by simpa [cleanView] using hok)
-        cases c <;> simp [compile, cleanOps, cleanOp, this]
+        have := ih.2 was c vs (by omega) (by simpa [cleanView] using hok)
+        cases c <;> simp [compileA, cleanOps, cleanOp, this]
       | resSuspend f v =>
         simp only [viewSize] at h
         have hv : cleanView v = true := by simpa [cleanView] using hok
         cases c with
         | top =>
-          have := ih.1 .top v (by omega) hv
-          cases ooo <;> simp [compile, cleanOps, cleanOp, this, hbang, cleanNonce]
-        | direct => simpa [compile] using ih.1 .direct v (by omega) hv
-        | nested => simpa [compile] using ih.1 .direct v (by omega) hv
-      | resRead f v =>
+          have := ih.1 was .top v (by omega) hv
+          cases ooo <;> simp [compileA, cleanOps, cleanOp, this, hbang, cleanNonce]
+        | direct => simpa [compileA] using ih.1 was .nested v (by omega) hv
+        | nested => simpa [compileA] using ih.1 was .nested v (by omega) hv
+      | resRead once f v =>
         simp only [viewSize] at h
-        have := ih.1 c v (by omega) (by simpa [cleanView] using hok)
-        cases c <;> simpa [compile] using this
-      | localRead => cases c <;> simp [compile, cleanOps]
-      | localAwait f => cases c <;> simp [compile, cleanOps]
-    exact ⟨hV, fun c vs h hok => hL c vs h hok hV⟩
+        have hv : cleanView v = true := by simpa [cleanView] using hok
+        cases c with
+        | top => simpa [compileA] using ih.1 was .top v (by omega) hv
+        | direct =>
+          simp only [compileA]
+          split
+          · exact ih.1 was .direct v (by omega) hv
+          · exact ih.1 was .nested v (by omega) hv
+        | nested =>
+          have := ih.1 was .nested v (by omega) hv
+          simp [compileA, cleanOps, cleanOp, this, hbang]
+      | localRead => cases c <;> simp [compileA, cleanOps]
+      | localAwait f => cases c <;> simp [compileA, cleanOps]
+    exact ⟨hV, fun was c vs h hok => hL was c vs h hok hV⟩
+
+theorem compile_clean (ooo : Bool) : ∀ (n : Nat),
+    (∀ (c : Ctx) (v : View), viewSize v ≤ n → cleanView v = true → cleanOps (compile ooo c v) = true) ∧
+    (∀ (c : Ctx) (vs : List View), viewSizeL vs ≤ n → cleanViewL vs = true → cleanOps (compileL ooo c vs) = true) :=
+  fun n => ⟨fun c v h hc => (compileA_clean ooo n).1 [] c v h hc, fun c vs h hc => (compileA_clean ooo n).2 [] c vs h hc⟩
 
 end Leptos.Stream
